@@ -158,6 +158,10 @@ def record_baseline(results):
             print('unit %s: canaries verified (vacuous?): %s' % (u, res['canaries_not_failing']))
             ok = False
             continue
+        if res.get('isolated'):
+            print('unit %s: functions could not be brought into the verifier; baseline not recorded: %s' % (u, res['isolated']))
+            ok = False
+            continue
         good = [o['id'] for o in res['obligations'] if o['id'] not in m.fail]
         bad = [o['id'] for o in res['obligations'] if o['id'] in m.fail]
         base[u] = sorted(good)
@@ -195,11 +199,19 @@ def report_property(prop, a, reg, results, extra, seed, t0):
         if m.prelude_fail:
             undecided.append('unit %s: a lemma of the spec library no longer verifies:\n%s' % (u, m.prelude_fail[0][:1500]))
         unit_broken = bool(m.hard_errors or m.resource)
+        isolated = res.get('isolated') or {}
+        iso_reported = set()
         for o in res['obligations']:
             if prop not in o['props']:
                 continue
             obligations.append(o)
             if unit_broken:
+                continue
+            if o['item'] in isolated:
+                if o['item'] not in iso_reported:
+                    iso_reported.add(o['item'])
+                    undecided.append('unit %s: function %s can no longer be brought into the verifier, its obligations are NOT decided (%s)'
+                                     % (u, o['item'], isolated[o['item']][:400]))
                 continue
             if o['id'] in m.fail:
                 msg = m.fail[o['id']]
@@ -217,6 +229,13 @@ def report_property(prop, a, reg, results, extra, seed, t0):
                     undecided.append('obligation %s: error cap reached in this function' % o['id'])
                 else:
                     discharged.append(o)
+        for it_id, why in isolated.items():
+            meta = [x for x in g.items if x['id'] == it_id]
+            props_of = set(meta[0].get('props', [])) if meta else set()
+            if (prop in props_of or not props_of) and it_id not in iso_reported:
+                iso_reported.add(it_id)
+                undecided.append('unit %s: function %s can no longer be brought into the verifier, its obligations are NOT decided (%s)'
+                                 % (u, it_id, why[:400]))
         for it in g.items:
             if prop in it.get('props', []) or any(prop in o['props'] and o['item'] == it['id'] for o in res['obligations']):
                 st = None
